@@ -316,8 +316,8 @@ theorem keyedWalk_absent (cfg : Cfg) (p : Path) (sa oa : Val) (c c' : Cls) (sl o
       have hL2 : segGet .left (.idx i) (.list c sl) = some x := by simpa using hx0
       have hR2 : cfg.direct = true → segGet .right (.idx i) (.list c' ol) = some y := by
         intro hd'; rw [hd] at hd'; cases hd'
-      have hcb := classifyItem_shape cfg p (p ++ [if i = j then PSeg.idx i else PSeg.idx2 i j]) (p ++ [.idx i]) sa oa x y
-      cases hcl : classifyItem cfg p (p ++ [if i = j then PSeg.idx i else PSeg.idx2 i j]) (p ++ [.idx i]) sa oa x y with
+      have hcb := classifyItem_shape cfg p (p ++ [if i = j then PSeg.idx i else PSeg.idx2 i j]) (p ++ [if i = j then PSeg.idx i else PSeg.idx2 i j]) sa oa x y
+      cases hcl : classifyItem cfg p (p ++ [if i = j then PSeg.idx i else PSeg.idx2 i j]) (p ++ [if i = j then PSeg.idx i else PSeg.idx2 i j]) sa oa x y with
       | emit r0 s =>
         rw [hcl] at h hcb
         simp only at h
@@ -458,7 +458,7 @@ theorem keyedWalk_decomp (cfg : Cfg) (p : Path) (sa oa : Val) : ∀ (xs : List V
       obtain ⟨j, y⟩ := jy
       rw [hf] at h
       simp only at h ⊢
-      cases hcl : classifyItem cfg p (p ++ [if i = j then PSeg.idx i else PSeg.idx2 i j]) (p ++ [.idx i]) sa oa x y with
+      cases hcl : classifyItem cfg p (p ++ [if i = j then PSeg.idx i else PSeg.idx2 i j]) (p ++ [if i = j then PSeg.idx i else PSeg.idx2 i j]) sa oa x y with
       | emit r0 s =>
         rw [hcl] at h
         simp only at h
